@@ -40,7 +40,7 @@ TARGETS = store.pools(False)['targets']
 
 
 @st.composite
-def _case(draw):
+def _case(draw, held=False):
     pool = draw(store.alg_pool(False))
     contents = draw(st.lists(store.content, min_size=2, max_size=5))
     n = len(pool)
@@ -63,7 +63,38 @@ def _case(draw):
                   st.integers(0, 2)).map(list),
         st.tuples(st.just('tgt'), t).map(list),
         st.just(['reopen']),
+        # a dataset that is kept and loaded again later (slot 0..1)
+        st.tuples(st.just('hold'), t, run, a, st.integers(0, 1)).map(list),
+        st.tuples(st.just('hload'), st.integers(0, 1)).map(list),
+        st.tuples(st.just('hload'), st.integers(0, 1)).map(list),
+        # somebody else stores for the target / algorithm of a kept dataset
+        st.tuples(st.just('hupd'), st.integers(0, 1), run, cidx).map(list),
+        st.tuples(st.just('hupd'), st.integers(0, 1), run, cidx).map(list),
     )
+    if held:
+        # sessions: a dataset is connected once and loaded several times
+        # while other datasets store for the same target and algorithm
+        slot = st.integers(0, 1)
+        op = st.one_of(
+            st.tuples(st.just('hold'), t, run, a, slot).map(list),
+            st.tuples(st.just('hload'), slot).map(list),
+            st.tuples(st.just('hload'), slot).map(list),
+            st.tuples(st.just('hload'), slot).map(list),
+            st.tuples(st.just('hupd'), slot, run, cidx).map(list),
+            st.tuples(st.just('hupd'), slot, run, cidx).map(list),
+            st.tuples(st.just('hupd'), slot, run, cidx).map(list),
+            st.tuples(st.just('upd'), t, run, a, cidx).map(list),
+            st.tuples(st.just('load'), t, run, a).map(list),
+            st.tuples(st.just('bump'), a, st.sampled_from(['a', 's', 'v']),
+                      st.integers(0, 1), st.integers(0, 2),
+                      st.integers(0, 2)).map(list),
+        )
+        first = [draw(st.tuples(st.just('hold'), t, run, a,
+                                st.just(0)).map(list)),
+                 draw(st.tuples(st.just('hold'), t, run, a,
+                                st.just(1)).map(list))]
+        return {'pool': pool, 'contents': contents,
+                'ops': first + draw(st.lists(op, min_size=4, max_size=28))}
     return {'pool': pool, 'contents': contents,
             'ops': draw(st.lists(op, min_size=4, max_size=30))}
 
@@ -85,19 +116,49 @@ def execute(case):
     s = store.Store(case['pool'])
     bumped = set()
     reopened = False
+    held = {}
     try:
         for op in case['ops']:
             kind = op[0]
             where = str(op)
+            if kind == 'hupd':
+                h = held.get(op[1])
+                if h is None:
+                    continue
+                kind = 'upd'
+                op = ['upd', h['t'], op[2], h['i'], op[3]]
             if kind == 'upd':
                 cont = [case['contents'][c] for c in op[4]]
                 s.update(op[1], op[2], op[3], cont)
-            elif kind == 'load':
-                t, run, i = op[1], op[2], op[3]
-                got = s.load(t, run, i)
+                for h in held.values():
+                    if (h['t'], h['i']) == (op[1], op[3]):
+                        h['stale'] = True
+            elif kind == 'hold':
+                held[op[4]] = s.hold(op[1], op[2], op[3])
+            elif kind in ('load', 'hload'):
+                h = None
+                if kind == 'hload':
+                    h = held.get(op[1])
+                    if h is None or h['reopens'] != s.reopens:
+                        continue  # nothing held (a reopen ends the session)
+                    t, run, i = h['t'], h['run'], h['i']
+                    if h.get('loaded') and h.get('stale'):
+                        out.nontrivial = True
+                        out.label('held-dataset-loads-again-after-a-store')
+                    h['loaded'], h['stale'] = True, False
+                    where = f'{where} (held {t} run {run} alg {i})'
+                else:
+                    t, run, i = op[1], op[2], op[3]
+                got = s.load(t, run, i, held=h)
+                hver = h['ver'] if h else None
                 for (j, k), g in sorted(got.items()):
-                    want = s.expect_load(t, run, i, j, k)
-                    ident = s.ident(i, j, k)
+                    want = s.expect_load(t, run, i, j, k, ver=hver)
+                    if hver is not None:
+                        now, s.ver = s.ver, hver
+                        ident = s.ident(i, j, k)
+                        s.ver = now
+                    else:
+                        ident = s.ident(i, j, k)
                     stored_runs = sorted(
                         key[0] for key in s.model
                         if key[1] == t and key[2:] == ident)
@@ -159,4 +220,6 @@ def parts(tier):
     return [
         core.Part('history', execute, strategy=_case(),
                   cases=1200 if q else 30000, batch=60),
+        core.Part('held', execute, strategy=_case(held=True),
+                  cases=600 if q else 15000, batch=60),
     ]
